@@ -9,7 +9,7 @@
        - the final decisions (no source side / no source fragments -> error).
      impl Transposable for ResultItem<Annotation> :: transpose   (text selection set of the
        annotation, existing_source_side when it has an id)
-   Transcribed after the fix commits 3766509 afeaba5 993f18c 3d34622 5f70b2d 43de370.
+   Transcribed after the fix commits 3766509 afeaba5 993f18c 3d34622 5f70b2d 43de370 1f7d359.
    What the code then builds from the per-side selectors (annotation builders with ids, the
    resegmentation annotation, the copied data) is represented by the result record only: the
    selections of every side of the new transposition in order, which side is the source and
@@ -30,7 +30,7 @@ Definition rng (f : frag) : nat * nat := (fb f, fe f).
 Inductive tres (A : Type) :=
 | TOk (a : A)
 | TErr            (* Err(StamError::TransposeError / CursorOutOfBounds ...) *)
-| TPanic          (* expect()/index out of range *)
+| TPanic          (* expect("intersection offset must be valid") *)
 | TFuel.          (* the model ran out of fuel (the code would not terminate) *)
 Arguments TOk {A} a.
 Arguments TErr {A}.
@@ -170,7 +170,7 @@ Fixpoint map_rels (lens : list nat) (sd : side) (rels : list (nat * offset)) : t
   | [] => TOk []
   | (k, off) :: rels' =>
       match nth_error sd k with
-      | None => TPanic          (* expect("element must exist") *)
+      | None => TErr            (* the side has no text selection #k: TransposeError (since 1f7d359) *)
       | Some g =>
           match findtext_sel_ts (nth (fres g) lens 0) (rng g) off with
           | Err => TErr
